@@ -16,6 +16,11 @@
  *   srcv3 <maxBlk> <len1> <seed1> <len2> <seed2> <size1:0|1> <t.num.m.szx.r,…>   two interleaved Block1 transfers to ONE resource,
  *                                              told apart by Request-Tag only (r: 0 absent, 1 EMPTY, 2..9 / 10..17 = 1..8 bytes)
  *   crcv <single> <bodyLen> <seed> <size2|-> <num.m.szx.etag.fmt[.len[.s2]],…>   coap_handle_response_get_block sequence (client, Block2)
+ *   crcvs <single> <bodyLen> <seed> <size2|-> <init> <u.num.m.szx.etag.fmt[.len[.s2]],…>   the same; u = 1: the response arrives with
+ *                                              sent == NULL (NON / separate response, or no request outstanding); init = 1: the session
+ *                                              starts with the lg_crcv coap_send() sets up for the request
+ *   ctok <isReq> <tokhex|-> <apphex|-/state,…|-> <apphex|-/state,…|->   coap_check_update_token (token restoration in front of the NACK
+ *                                              handler) on a session with these lg_crcv / lg_xmit entries (application token / state token)
  *   xmit2 <szx> <bodyLen> <seed> <mtu2> <num.szx,…>        coap_add_data_large_response + coap_handle_request_send_block sequence (server, Block2)
  *   xmit1 <cszx|-> <bodyLen> <seed> <mtu> <code.num.szx|code,…>   coap_add_data_large_request + coap_send + coap_handle_response_send_block sequence (client, Block1)
  *
@@ -503,7 +508,7 @@ static void crcv_on_tx(const sim_dgram_t *d) {
   if (p) coap_delete_pdu(p);
 }
 
-static void do_crcv(int single, size_t bodyLen, unsigned seed, long size2, char *seq) {
+static void do_crcv_x(int single, size_t bodyLen, unsigned seed, long size2, char *seq, int ext, int init) {
   static const uint8_t tok[4] = {0xa1, 0xa1, 0xa1, 0xa1};
   sim_reset();
   sim_log_enabled = 0;
@@ -520,12 +525,25 @@ static void do_crcv(int single, size_t bodyLen, unsigned seed, long size2, char 
   sent = coap_new_pdu(COAP_MESSAGE_NON, COAP_REQUEST_CODE_GET, s);
   coap_add_token(sent, 4, tok);
   coap_add_option(sent, COAP_OPTION_URI_PATH, 1, (const uint8_t *)"b");
+  if (init) {
+    /* what coap_send_lkd() does for every request of a session in COAP_BLOCK_USE_LIBCOAP mode */
+    coap_lg_crcv_t *lg;
+    coap_lock_lock(ctx, return);
+    lg = coap_block_new_lg_crcv(s, sent, NULL);
+    if (lg) LL_PREPEND(s->lg_crcv, lg);
+    coap_lock_unlock(ctx);
+  }
   for (tk = strtok_r(seq, ",", &save); tk; tk = strtok_r(NULL, ",", &save), k++) {
-    unsigned num, m, szx, etag, fmt; long len = -1, s2 = -1, sz2 = size2;
+    unsigned num, m, szx, etag, fmt, u = 0; long len = -1, s2 = -1, sz2 = size2;
     uint8_t buf[4];
     coap_pdu_t *rcvd;
     size_t chunk, off, plen;
-    int ret, nf = sscanf(tk, "%u.%u.%u.%u.%u.%ld.%ld", &num, &m, &szx, &etag, &fmt, &len, &s2);
+    int ret, nf;
+    if (ext) {
+      nf = sscanf(tk, "%u.%u.%u.%u.%u.%u.%ld.%ld", &u, &num, &m, &szx, &etag, &fmt, &len, &s2) - 1;
+      if (u > 1) nf = 0;
+    } else
+      nf = sscanf(tk, "%u.%u.%u.%u.%u.%ld.%ld", &num, &m, &szx, &etag, &fmt, &len, &s2);
     if (nf < 5 || szx > 6 || m > 1 || etag > 255 || fmt > 255 || (nf >= 6 && len < 0) || (nf == 7 && s2 < 0)) { printf("bad-op"); break; }
     if (nf == 7) sz2 = s2 - 1;
     chunk = (size_t)1 << (szx + 4);
@@ -542,7 +560,7 @@ static void do_crcv(int single, size_t bodyLen, unsigned seed, long size2, char 
     if (plen) coap_add_data(rcvd, plen, body + off);
     crcv_hbuf[0] = crcv_qbuf[0] = 0;
     coap_lock_lock(ctx, break);
-    ret = coap_handle_response_get_block(ctx, s, sent, rcvd, COAP_RECURSE_OK);
+    ret = coap_handle_response_get_block(ctx, s, u ? NULL : sent, rcvd, COAP_RECURSE_OK);
     coap_lock_unlock(ctx);
     if (!first) fputc(',', stdout);
     first = 0;
@@ -572,6 +590,83 @@ static void do_crcv(int single, size_t bodyLen, unsigned seed, long size2, char 
   sim_free_all(0);
   sim_log_enabled = 1;
   free(body);
+}
+
+static void do_crcv(int single, size_t bodyLen, unsigned seed, long size2, char *seq) {
+  do_crcv_x(single, bodyLen, seed, size2, seq, 0, 0);
+}
+
+/* ctok <isReq> <tokhex|-> <crcvs> <xmits> : coap_check_update_token(session, pdu) — what coap_handle_nack() does to the abandoned
+ * PDU before the application's NACK handler sees it.  The session gets lg_crcv entries (in list order) and lg_xmit entries with the
+ * given application token / state token; pdu is a GET request (isReq = 1) or a 2.05 response carrying <tokhex>.  Prints the token
+ * the PDU carries afterwards (what the handler is shown). */
+static int ctok_parse(char *list, uint8_t app[][8], size_t *appn, uint64_t *state, int max) {
+  char *tk, *save = NULL;
+  int n = 0;
+  if (!strcmp(list, "-")) return 0;
+  for (tk = strtok_r(list, ",", &save); tk; tk = strtok_r(NULL, ",", &save)) {
+    char *sl = strchr(tk, '/'), *end;
+    size_t l = 0; uint8_t *b;
+    if (!sl || n >= max) return -1;
+    *sl = 0;
+    if (strcmp(tk, "-")) {
+      b = h_unhex(tk, &l);
+      if (!b || l > 8) { free(b); return -1; }
+      memcpy(app[n], b, l); free(b);
+    }
+    appn[n] = l;
+    if (!sl[1]) return -1;
+    state[n] = strtoull(sl + 1, &end, 10);
+    if (*end) return -1;
+    n++;
+  }
+  return n;
+}
+static void do_ctok(int isReq, const char *tokhex, char *crcvs, char *xmits) {
+  uint8_t capp[8][8], xapp[8][8], tokb[8];
+  size_t cappn[8], xappn[8], tokn = 0;
+  uint64_t cst[8], xst[8];
+  int nc = ctok_parse(crcvs, capp, cappn, cst, 8), nx = ctok_parse(xmits, xapp, xappn, xst, 8);
+  coap_context_t *ctx;
+  coap_session_t *s;
+  coap_pdu_t *pdu;
+  if (nc < 0 || nx < 0) { printf("bad-op"); return; }
+  if (strcmp(tokhex, "-")) {
+    uint8_t *b = h_unhex(tokhex, &tokn);
+    if (!b || tokn > 8) { free(b); printf("bad-op"); return; }
+    memcpy(tokb, b, tokn); free(b);
+  }
+  sim_reset();
+  sim_log_enabled = 0;
+  ctx = sim_new_context();
+  s = sim_new_client(ctx, 5683);
+  for (int i = nc - 1; i >= 0; i--) {          /* LL_PREPEND in reverse: list order = line order */
+    coap_lg_crcv_t *lg = (coap_lg_crcv_t *)coap_malloc_type(COAP_LG_CRCV, sizeof(*lg));
+    memset(lg, 0, sizeof(*lg));
+    lg->app_token = coap_new_binary(cappn[i]);
+    memcpy(lg->app_token->s, capp[i], cappn[i]);
+    lg->state_token = cst[i];
+    LL_PREPEND(s->lg_crcv, lg);
+  }
+  for (int i = nx - 1; i >= 0; i--) {
+    coap_lg_xmit_t *lg = (coap_lg_xmit_t *)coap_malloc_type(COAP_LG_XMIT, sizeof(*lg));
+    memset(lg, 0, sizeof(*lg));
+    lg->pdu.code = COAP_REQUEST_CODE_PUT;
+    lg->b.b1.app_token = coap_new_binary(xappn[i]);
+    memcpy(lg->b.b1.app_token->s, xapp[i], xappn[i]);
+    lg->b.b1.state_token = xst[i];
+    LL_PREPEND(s->lg_xmit, lg);
+  }
+  pdu = coap_pdu_init(COAP_MESSAGE_CON, isReq ? COAP_REQUEST_CODE_GET : COAP_RESPONSE_CODE_CONTENT, 77, 256);
+  coap_add_token(pdu, tokn, tokb);
+  coap_add_option(pdu, COAP_OPTION_URI_PATH, 1, (const uint8_t *)"b");
+  coap_lock_lock(ctx, return);
+  coap_check_update_token(s, pdu);
+  coap_lock_unlock(ctx);
+  h_puthex(stdout, pdu->actual_token.s, pdu->actual_token.length);
+  coap_delete_pdu(pdu);
+  sim_free_all(0);
+  sim_log_enabled = 1;
 }
 
 /* ---- sender side (lg_xmit) ---- */
@@ -761,6 +856,11 @@ static void step1(char *line) {
              (unsigned)strtoul(w[5], 0, 10), atoi(w[6]), w[7]);
   } else if (!strcmp(w[0], "crcv") && n == 6) {
     do_crcv(atoi(w[1]), strtoull(w[2], 0, 10), (unsigned)strtoul(w[3], 0, 10), strcmp(w[4], "-") ? atol(w[4]) : -1, w[5]);
+  } else if (!strcmp(w[0], "crcvs") && n == 7) {
+    do_crcv_x(atoi(w[1]), strtoull(w[2], 0, 10), (unsigned)strtoul(w[3], 0, 10), strcmp(w[4], "-") ? atol(w[4]) : -1, w[6], 1,
+              atoi(w[5]) != 0);
+  } else if (!strcmp(w[0], "ctok") && n == 5) {
+    do_ctok(atoi(w[1]) != 0, w[2], w[3], w[4]);
   } else if (!strcmp(w[0], "xmit2") && n == 6) {
     size_t m1 = 1152, m2 = 0;
     if (sscanf(w[4], "%zu:%zu", &m1, &m2) != 2) { m1 = 1152; m2 = strtoull(w[4], 0, 10); }
@@ -781,7 +881,7 @@ static char *cap_end(void) { fclose(stdout); stdout = h_saved; return h_cap; }
 
 static void step(char *line) {
   long live0 = h_live;
-  if (!strncmp(line, "crcv ", 5) || !strncmp(line, "srcv", 4)) {
+  if (!strncmp(line, "crcv ", 5) || !strncmp(line, "crcvs ", 6) || !strncmp(line, "srcv", 4)) {
     /* whatever the receiving application is handed must not depend on bytes nobody wrote */
     char *copy = strdup(line), *a, *b;
     h_poison = 0xA5; cap_begin(); step1(line); a = cap_end();
